@@ -4,7 +4,7 @@
 (* EVERY operand pair of every width 1..MaxW.  One state per (width, first operand); the invariant   *)
 (* quantifies over the second operand.  The phase variable only moves the work out of Init so that  *)
 (* TLC's workers share it.                                                                          *)
-EXTENDS BitOps, IOUtils
+EXTENDS BitOps, IOUtils, Json
 
 MaxW == IF "MAXW" \in DOMAIN IOEnv THEN atoi(IOEnv.MAXW) ELSE 6
 MaxWDiv == IF "MAXWDIV" \in DOMAIN IOEnv THEN atoi(IOEnv.MAXWDIV) ELSE 4
@@ -67,6 +67,17 @@ DivOK(w, a) ==
              /\ (qv * dv + rv - av) % P2(w) = 0
              /\ (sg = 1 /\ av = 0 - P2(w-1) /\ dv = -1) \/ qv * dv + rv = av
              /\ IF dv > 0 THEN 0 <= rv /\ rv < dv ELSE dv < rv /\ rv <= 0
+
+\* operands of different widths (the documentation gives the quotient the dividend's length and the remainder the
+\* divisor's): does the restoring division still compute the floored quotient and remainder?
+MixedSg == IF "SG" \in DOMAIN IOEnv THEN atoi(IOEnv.SG) ELSE 1
+DivMixedOK(w, a) ==
+    \A wb \in {2, 4, 8} : (IsPow2(w) /\ w >= 2 /\ wb # w) =>
+        \A d \in 1..(P2(wb) - 1) : \A sg \in {MixedSg} :
+            IF DivAlg2(sg, w, wb, a, d) = DivDef2(sg, w, wb, a, d) THEN TRUE
+            ELSE PrintT(<< "DIVMIXED", ToJson([sg |-> sg, w |-> w, wb |-> wb, a |-> a, d |-> d,
+                            alg |-> DivAlg2(sg, w, wb, a, d), def |-> DivDef2(sg, w, wb, a, d)]) >>) /\ FALSE
+DivMixedInv == ph = 1 => DivMixedOK(cw, ca)
 
 CmpInv == ph = 1 => ReadOK(cw, ca) /\ CmpOK(cw, ca)
 ArithInv == ph = 1 => ReadOK(cw, ca) /\ AddOK(cw, ca) /\ MuxOK /\ ClipOK(cw, ca) /\ DivOK(cw, ca)
